@@ -79,6 +79,31 @@ Definition or_insert {K} (eqb : K -> K -> bool) (m : list (K * nat)) (k : K) (v 
 Definition pair_eqb (a b : nat * nat) : bool := Nat.eqb (fst a) (fst b) && Nat.eqb (snd a) (snd b).
 Definition opair_eqb (a b : option nat * option nat) : bool := opt_eqb (fst a) (fst b) && opt_eqb (snd a) (snd b).
 
+(* compatibility.rs TypeLookupImpl::with_process_types (fix 5eb967d, F70): the tables are computed over the
+   program's types EXTENDED with the process type of every function that has none in the table
+   (`known.insert((send, receive))` in the order of the functions; the extra types get the ids that
+   follow on from the program's table, so no existing id changes) *)
+Definition known_process_keys (P : registry) : list (option nat * option nat) :=
+  flat_map (fun t => match t with TProcess s r => [(s, r)] | _ => [] end) (types P).
+
+Fixpoint process_types_pass (P : registry) (known : list (option nat * option nat)) (fs : list func_info) : list ty :=
+  match fs with
+  | [] => []
+  | f :: fs' =>
+    let '(_, _, send, receive) := extract_function_type_info P f in
+    match send with
+    | Some _ =>
+      if existsb (opair_eqb (send, receive)) known then process_types_pass P known fs'
+      else TProcess send receive :: process_types_pass P ((send, receive) :: known) fs'
+    | None => process_types_pass P known fs'
+    end
+  end.
+
+Definition ci_xreg (I : compat_input) : registry :=
+  mk_reg (tuples (ci_reg I))
+         (types (ci_reg I) ++ process_types_pass (ci_reg I) (known_process_keys (ci_reg I)) (ci_functions I)).
+Arguments ci_xreg : simpl never.
+
 (* types.rs:91-93 is_never *)
 Definition is_never (t : ty) : bool := match t with TUnion [] => true | _ => false end.
 
@@ -123,11 +148,12 @@ Section Tables.
   Variable cfg : rel_cfg.
   Variable fuel : nat.
   Variable I : compat_input.
-  Let P := ci_reg I.
+  Let P := ci_reg I.      (* input.types / input.tuples: what extract_function_type_info reads *)
+  Let PX := ci_xreg I.    (* `lookup`: the program's types extended with the missing process types *)
 
   (* is_compatible; out of fuel counts as "not compatible" (the real call would not return) *)
   Definition compat (a b : nat) : bool :=
-    match is_compatible_with cfg fuel P a b with Some true => true | _ => false end.
+    match is_compatible_with cfg fuel PX a b with Some true => true | _ => false end.
 
   (* compatibility.rs:241-272  the three primitive checks, with the fallback used when the
      primitive itself has no entry in the type table *)
@@ -135,7 +161,7 @@ Section Tables.
     match found with
     | Some id => if compat id pattern_id then [tag] else []
     | None =>
-      match lookup_type P pattern_id with
+      match lookup_type PX pattern_id with
       | Some pattern => if is_prim pattern || is_never pattern then [tag] else []
       | None => []
       end
@@ -180,7 +206,7 @@ Section Tables.
   Definition pattern_type_ids : list nat := flat_map f_istypes (ci_functions I).
 
   Definition compute_type_compatibility : list (list ctag) :=
-    let index := build_index P in
+    let index := build_index PX in
     map (fun pattern_id =>
            if existsb (Nat.eqb pattern_id) pattern_type_ids
            then compute_compatible_concrete_types index pattern_id
@@ -189,7 +215,7 @@ Section Tables.
 
   (* compatibility.rs:115-147 (the memo is an optimisation: same value per parameter type) *)
   Definition compute_param_compatibility : list (list ctag) * list (list ctag) :=
-    let index := build_index P in
+    let index := build_index PX in
     (map (fun f => let '(parameter, _, _, _) := extract_function_type_info P f in
                    compute_compatible_concrete_types index parameter) (ci_functions I),
      map (fun b => compute_compatible_concrete_types index (fst b)) (ci_builtins I)).
